@@ -22,7 +22,7 @@ EXPLANATION = (
 NOT_DECIDED = ["astropy's is_equivalent / .to arithmetic (library)"]
 ASSUMPTIONS = ["a Quantity is modelled as its physical value (value x unit atoms); .to(unit) does not change the physical value"]
 TRUSTED = ["python ast", "sedlint E4/E5", "dimension table of the 20 unit names the repo uses"]
-MIN = {'ALG-15': 30, 'ALG-15r': 3, 'API-2': 1, 'ALG-15m': 4}
+MIN = {'ALG-15': 30, 'ALG-15r': 42, 'API-2': 1, 'ALG-15m': 4}
 TECHNIQUE = 'static analysis: finite-domain specialisation (unit families) of AST value numbering; substitution identities; literal-domain check of a library keyword'
 
 
@@ -76,7 +76,31 @@ def run(ctx):
                    'inconsistent conversions: %s' % bad[:5], 'consistency')
     ctx.exhaustive = True
 
-    # ---- SED.read wiring
+    # ---- SED.read wiring: decided on the file round trip (roundtrip.py): reading with a converted flux unit multiplies every cell by the frequency of the
+    # *same* cell, whatever order the reader reverses and converts in; the syntactic wiring rule is the fall-back and may only say "undecided"
+    from .. import roundtrip
+    if not roundtrip.check_sed(ctx, 'ALG-15r', 'ALG-15r'):
+        try:
+            syntactic_read_wiring(roundtrip.SuspectCtx(ctx, 'the round trip was not decided by interpretation and the syntactic rule, which knows one spelling only, reports'))
+        except AnalysisError as e:
+            ctx.undecided('ALG-15r', 'SED.read wiring', loc(repo.func('sed.sed', 'SED.read')), 'structure not recognised: %s' % e)
+
+    # ---- unit string parsing: parse_unit_safe interpreted on the legacy strings old files carry
+    common.api_literal_rule(ctx, ['sed.helpers'], min_sites=1)
+    from ..fitsem import FitsHooks
+    pus = ctx.fn(repo.func('sed.helpers', 'parse_unit_safe'))
+    expect = {'MICRONS': sym('unit:micron'), 'HZ': sym('unit:Hz'), 'MJY': sym('unit:mJy'), 'ergs/cm^2/s': sym('unit:erg') / sym('unit:cm').pow(2) / sym('unit:s')}
+    for k, want_u in expect.items():
+        I = Interp(repo, FitsHooks())
+        v = I.call(pus, [k])
+        if not isinstance(v, (Arr, Unk)):
+            v = I._as_arr(v)
+        compare(ctx, 'ALG-15m', 'parse_unit_safe(%r)' % k, loc(pus), v if isinstance(v, (Arr, Unk)) else Unk('parse_unit_safe(%r) gives %r' % (k, v)), want_u, (), vocab=set(),
+                detail_ok='%s -> %s' % (k, alg.show(want_u)))
+
+
+def syntactic_read_wiring(ctx):
+    repo = ctx.repo
     rd = ctx.fn(repo.func('sed.sed', 'SED.read'))
     cols = {}
     for t, v, st in stores(rd.node):
@@ -111,23 +135,6 @@ def run(ctx):
                    'called as %s (line %d, first reversal at %d; locals %s)' % (up(v), st.lineno, first_rev, cols), 'read-wiring')
     ctx.ok('ALG-15r', 'SED.read locals come from the matching columns', where(rd), '%s' % cols)
 
-    # ---- unit string parsing
-    common.api_literal_rule(ctx, ['sed.helpers'], min_sites=1)
-    hm = repo.module('sed.helpers')
-    ctx.fn(repo.func('sed.helpers', 'parse_unit_safe'))
-    expect = {'MICRONS': sym('unit:micron'), 'HZ': sym('unit:Hz'), 'MJY': sym('unit:mJy'), 'ergs/cm^2/s': sym('unit:erg') / sym('unit:cm').pow(2) / sym('unit:s')}
-    found = {}
-    for n in hm.tree.body:
-        if isinstance(n, ast.Assign) and isinstance(n.targets[0], ast.Subscript) and up(n.targets[0].value) == 'UNIT_MAPPING':
-            found[const(n.targets[0].slice)] = n
-    I = Interp(repo)
-    for k, want_u in expect.items():
-        inst = 'UNIT_MAPPING[%r]' % k
-        if k not in found:
-            ctx.violation('ALG-15m', inst, '%s:1 <module>' % hm.path, 'legacy unit string %r is no longer mapped' % k, 'unmapped')
-            continue
-        v = I._as_arr(I.expr(found[k].value, {'__module__': hm}, hm))
-        compare(ctx, 'ALG-15m', inst, '%s:%d <module>' % (hm.path, found[k].lineno), v, want_u, (), vocab=set(), detail_ok='%s -> %s' % (k, alg.show(want_u)))
 
 
 HE = 'sedfitter/sed/helpers.py'
